@@ -55,3 +55,19 @@ Theorem C12_generate_from_colr_place :
   map_viewbox_to_otsvg_space (Rect (f0 O) (fopp O asc) w (fsub O asc desc)) asc desc w aid = aid.
 Proof. exact (fun O Fth two => @generate_from_colr_place O Fth two). Qed.
 Print Assumptions C12_generate_from_colr_place.
+
+(* T2 (_copy_colr): the target's glyphs keep their ids and the new order names every glyph once,
+   provided the donor's layer glyph names are fresh in the target; a shared name breaks it *)
+Theorem C12_copy_colr_order :
+  forall (G : Type) (target layers : list G),
+  NoDup target -> NoDup layers -> (forall g, In g layers -> ~ In g target) ->
+  NoDup (copy_colr_order target layers) /\
+  (forall i g, nth_error target i = Some g -> nth_error (copy_colr_order target layers) i = Some g) /\
+  (forall g, In g layers -> In g (copy_colr_order target layers)).
+Proof. exact copy_colr_order_spec. Qed.
+Print Assumptions C12_copy_colr_order.
+Theorem C12_copy_colr_order_clash :
+  forall (G : Type) (target layers : list G) (g : G),
+  In g target -> In g layers -> ~ NoDup (copy_colr_order target layers).
+Proof. exact copy_colr_order_clash. Qed.
+Print Assumptions C12_copy_colr_order_clash.
